@@ -119,8 +119,8 @@ func (p *PKCS7PaddingWriter) Write(buff []byte) (n int, err error) {
 	if p.cache.Len() > p.blockSize {
 		// 把超过一个分组长度的部分读取出来，写入到实际的out中
 		size := p.cache.Len() - p.blockSize
-		_, _ = p.cache.Read(p.swap[:size])
-		_, err = p.out.Write(p.swap[:size])
+		// size may exceed the 1 KiB swap area: hand the cached bytes over directly
+		_, err = p.out.Write(p.cache.Next(size))
 		if err != nil {
 			return 0, err
 		}
